@@ -18,7 +18,8 @@ SITE = {'gp.train': 'GaussianProcess::train', 'gp.ln_m': 'GaussianProcess::ln_m'
         'gp.set_parameters': 'GaussianProcess::set_parameters', 'gp.predict_mean': 'GaussianProcess::sample_function',
         'gp.predict_cov': 'GaussianProcessPrediction::cov', 'gp.predict_var': 'GaussianProcessPrediction::variance',
         'gp.predict_std': 'GaussianProcessPrediction::std', 'gp.params_roundtrip': 'GaussianProcess::set_parameters',
-        'gp.query_layout': 'GaussianProcess::sample_function', 'gp.add_noise': 'NoiseModel::add_noise_to_kernel'}
+        'gp.query_layout': 'GaussianProcess::sample_function', 'gp.set_vs_fresh': 'GaussianProcess::set_parameters',
+        'gp.state': 'GaussianProcess::set_parameters', 'gp.add_noise': 'NoiseModel::add_noise_to_kernel'}
 
 
 def mk_fail(op, case, impl, expected, detail=''):
@@ -98,21 +99,34 @@ def vec_err(a, b, scale=None):
     return max(abs(x - y) for x, y in zip(a, b)) / s
 
 
+def lg4(rng, a, b):
+    """log-uniform, rounded to 4 decimals: NOT an image of exp (see notes: round trip)"""
+    return round(math.exp(rng.uniform(math.log(a), math.log(b))), 4)
+
+
+SHAPES = [
+    ('rbf', lambda r: ('rbf', lg4(r, 0.3, 3.0))),
+    ('const*rbf', lambda r: ('mul', ('const', lg4(r, 0.1, 10.0)), ('rbf', lg4(r, 0.3, 3.0)))),
+    ('rbf*const', lambda r: ('mul', ('rbf', lg4(r, 0.3, 3.0)), ('const', lg4(r, 0.1, 10.0)))),
+    ('const+rbf', lambda r: ('add', ('const', lg4(r, 0.1, 10.0)), ('rbf', lg4(r, 0.3, 3.0)))),
+    ('const*rbf+const', lambda r: ('add', ('mul', ('const', lg4(r, 0.1, 10.0)), ('rbf', lg4(r, 0.3, 3.0))), ('const', lg4(r, 0.1, 2.0)))),
+    ('rbf*rbf', lambda r: ('mul', ('rbf', lg4(r, 0.3, 3.0)), ('rbf', lg4(r, 0.3, 3.0)))),
+]
+
+
 def rkernel(rng):
-    lg = lambda a, b: round(math.exp(rng.uniform(math.log(a), math.log(b))), 4)   # NOT an image of exp (see notes: round trip)
-    l, c = lg(0.3, 3.0), lg(0.1, 10.0)
     r = rng.random()
-    if r < 0.3:
-        return ('rbf', l)
-    if r < 0.5:
-        return ('mul', ('const', c), ('rbf', l))
-    if r < 0.65:
-        return ('mul', ('rbf', l), ('const', c))
-    if r < 0.85:
-        return ('add', ('const', c), ('rbf', l))
-    if r < 0.95:
-        return ('add', ('mul', ('const', c), ('rbf', l)), ('const', lg(0.1, 2.0)))
-    return ('mul', ('rbf', l), ('rbf', lg(0.3, 3.0)))
+    i = 0 if r < 0.3 else 1 if r < 0.5 else 2 if r < 0.65 else 3 if r < 0.85 else 4 if r < 0.95 else 5
+    return SHAPES[i][1](rng)
+
+
+def with_params(k, th):
+    """the kernel of the same shape with log-parameters th (consumed left to right); returns (kernel, rest)"""
+    if k[0] in ('const', 'rbf'):
+        return (k[0], math.exp(th[0])), th[1:]
+    a, rest = with_params(k[1], th)
+    b, rest = with_params(k[2], rest)
+    return (k[0], a, b), rest
 
 
 def rcase(rng):
@@ -420,6 +434,134 @@ def fixed(run_pair, failures, obligations, findings, stats, samples):
     stats['distinct_nontrivial'] = stats.get('distinct_nontrivial', 0) + len(w)
 
 
+def parse_state(toks):
+    """STATE = L<p> parameters  ln_m  L<n> alpha  L<nq> mean  L<nq²> cov  L<nq> variance  -> (dict, remaining tokens) or (None, toks)"""
+    def lst(t):
+        if not t or not (t[0].startswith('L') and t[0][1:].isdigit()):
+            raise ValueError
+        n = int(t[0][1:])
+        return [tf(x) for x in t[1:1 + n]], t[1 + n:]
+    try:
+        st = {}
+        st['params'], t = lst(toks)
+        st['ln_m'], t = [tf(t[0])], t[1:]
+        for key in ('alpha', 'mean', 'cov', 'var'):
+            st[key], t = lst(t)
+        return st, t
+    except (ValueError, IndexError):
+        return None, toks
+
+
+def state_err(a, b, pv, tol=None):
+    """largest scaled deviation between two STATEs and the component(s) where it occurs (all those beyond `tol` if given)"""
+    errs = {}
+    for key in ('params', 'ln_m', 'alpha', 'mean', 'cov', 'var'):
+        if key == 'params':
+            errs[key] = vec_err(a[key], b[key], scale=1.0) * 1e4          # log-parameters: absolute 1e-12 at tolerance 1e-8
+        elif key in ('cov', 'var'):
+            errs[key] = vec_err(a[key], b[key], scale=max(pv, 1e-300))
+        else:
+            errs[key] = vec_err(a[key], b[key])
+    worst = max(errs.values(), key=lambda e: float('inf') if e != e else e)
+    beyond = [k for k, e in errs.items() if tol is not None and not e <= tol]
+    return worst, '+'.join(beyond) if beyond else max(errs, key=lambda k: errs[k])
+
+
+def refit(run_pair, rng, reps, failures, obligations, findings, stats, samples):
+    """set_parameters(θ') with a genuinely different valid θ': the resulting process (parameters, ln_m, the cached alpha,
+    predictive mean / cov / variance) against (a) the model's refit and (b) a process trained from scratch with the kernel
+    at θ' by the implementation itself; a failing set_parameters (wrong length) leaves the original process unchanged.
+    All six kernel shapes × both noise models, `reps` training sets each."""
+    lines, meta = [], []
+    for (sname, mk) in SHAPES:
+        for nkind in ('uniform', 'perpoint'):
+            for _ in range(reps):
+                n = rng.choice([2, 3, 5, 8, 12, 20])
+                d = rng.choice([1, 2, 3])
+                X = [[rng.uniform(-3, 3) for _ in range(d)] for _ in range(n)]
+                y = [math.sin(sum(x)) + rng.gauss(0, 0.3) for x in X]
+                k = mk(rng)
+                nm = ('uniform', rng.choice([1e-2, 0.1, 0.5])) if nkind == 'uniform' else ('perpoint', [lg4(rng, 1e-4, 1.0) for _ in range(n)])
+                th0 = params(k)
+                th = [t + rng.choice([-1, 1]) * rng.uniform(0.2, 1.0) for t in th0]     # every log-parameter moves by ≥ 0.2
+                bad_th = th + [0.1] if rng.random() < 0.5 else th[:-1]
+                Xq = [[rng.uniform(-3, 3) for _ in range(d)] for _ in range(rng.choice([1, 2, 4]))] + [X[0]]
+                g = gp(k, nm, X, y)
+                k2, _ = with_params(k, th)
+                meta.append((len(lines), sname, nkind, k2, X, nm, d))
+                lines += [f'gp.set_vs_fresh - {g} {L(th)} {pts(Xq)}', f'gp.set_vs_fresh - {g} {L(bad_th)} {pts(Xq)}',
+                          f'gp.state - {g} {pts(Xq)}', f'gp.train - {gp(k2, nm, X, y)}']
+    impl, model = run_pair(lines)
+    bad_fresh, bad_model, bad_err = [], [], []
+    n_ok = n_bit = 0
+    worst_fresh = worst_model = 0.0
+    combos = {}
+    for (o, sname, nkind, k2, X, nm, d) in meta:
+        n = len(X)
+        tr = floats(impl[o + 3])
+        if len(tr) == 2 * n * n + n:
+            kinv = [tr[n * n + n + i * n:n * n + n + (i + 1) * n] for i in range(n)]
+            nd = [nm[1] ** 2] * n if nm[0] == 'uniform' else nm[1]
+            K = [[kcov(k2, X[i], X[j]) + (nd[i] if i == j else 0.0) for j in range(n)] for i in range(n)]
+            cond = norminf(K) * norminf(kinv)
+        else:
+            cond = 1.0
+        tol = 1e-8 * max(1.0, cond / 1e6)
+        pv = kcov(k2, [0.0] * d, [0.0] * d)
+        # --- valid θ'
+        A, rest = parse_state(impl[o].split())
+        B, rest2 = parse_state(rest) if A else (None, rest)
+        MA, _ = parse_state(model[o].split())
+        if A is None or B is None or rest2:
+            if shape(impl[o]) != shape(model[o]):               # e.g. not PSD at θ': same outcome required on both sides
+                bad_model.append((lines[o], impl[o], model[o], 'outcome'))
+        else:
+            n_ok += 1
+            combos[(sname, nkind)] = combos.get((sname, nkind), 0) + 1
+            half = len(impl[o].split()) // 2
+            n_bit += impl[o].split()[:half] == impl[o].split()[half:]
+            e, where = state_err(A, B, pv, tol)
+            worst_fresh = max(worst_fresh, e / max(1.0, cond / 1e6))
+            if not e <= tol:
+                bad_fresh.append((lines[o], ' '.join(impl[o].split()[:half]), ' '.join(impl[o].split()[half:]),
+                                  f'{sname}/{nkind}: after set_parameters(θ\') the {where} differs from a freshly trained process: scaled err {e:.3g} tol {tol:.3g}'))
+            if MA is None:
+                bad_model.append((lines[o], impl[o], model[o], 'outcome'))
+            else:
+                e, where = state_err(A, MA, pv, tol)
+                worst_model = max(worst_model, e / max(1.0, cond / 1e6))
+                if not e <= tol:
+                    bad_model.append((lines[o], impl[o], model[o], f'{sname}/{nkind}: {where} after set_parameters(θ\') ≠ model refit: scaled err {e:.3g} tol {tol:.3g}'))
+        # --- wrong number of parameters: error, and the original process is untouched
+        ti, tm, t0 = impl[o + 1].split(), model[o + 1].split(), impl[o + 2].split()
+        ne = 2 if ti and ti[0] in ('E:MissingParameters', 'E:ExtraneousParameters') else 1
+        if not (ti and ti[0].startswith('E:')) or ti[:ne] != tm[:ne]:
+            bad_err.append((lines[o + 1], ' '.join(ti[:3]), ' '.join(tm[:3]), 'wrong-length θ must be rejected with the model\'s error'))
+        elif ti[ne:] != t0:
+            bad_err.append((lines[o + 1], ' '.join(ti[ne:]), ' '.join(t0), 'state after a failed set_parameters ≠ state of the original process'))
+    ncase = len(meta)
+    for lst_ in (bad_fresh, bad_model, bad_err):
+        for (ln, a, b, det) in lst_[:4]:
+            failures.append(mk_fail('gp.set_vs_fresh', ln, a, b, det))
+    cs = lambda l: [{'line': ln[:3000], 'impl': a[:400], 'model': b[:400]} for (ln, a, b, _) in l[:3]]
+    obligations.append({'name': 'corr:set_parameters_refit=fresh_train', 'kind': 'corr', 'ok': not bad_fresh and n_ok > 0,
+                        'site': 'GaussianProcess::set_parameters',
+                        'detail': f'{n_ok} refits with every log-parameter moved by 0.2–1.0 ({len(combos)} of 12 kernel-shape × noise-model combinations): parameters, ln_m, cached alpha, '
+                                  f'predictive mean/cov/variance vs train(kernel(θ\'), X, y, noise) of the implementation: {len(bad_fresh)} beyond 1e-8·max(1,cond/1e6), '
+                                  f'{n_bit} bit-identical; worst scaled error {worst_fresh:.3g}' + (f'; first: {bad_fresh[0][3]}' if bad_fresh else ''),
+                        'cases': cs(bad_fresh)})
+    obligations.append({'name': 'corr:set_parameters_refit(hand model)', 'kind': 'corr', 'ok': not bad_model and n_ok > 0,
+                        'site': 'GaussianProcess::set_parameters',
+                        'detail': f'{n_ok} refits vs Hand.Gp.setParameters: {len(bad_model)} beyond tolerance; worst scaled error {worst_model:.3g}'
+                                  + (f'; first: {bad_model[0][3]}' if bad_model else ''), 'cases': cs(bad_model)})
+    obligations.append({'name': 'corr:set_parameters_error_leaves_process_unchanged', 'kind': 'corr', 'ok': not bad_err, 'site': 'GaussianProcess::set_parameters',
+                        'detail': f'{ncase} calls with one parameter too many / too few: rejected with the model\'s error, the original process answers as before '
+                                  f'(bit for bit): {len(bad_err)} discrepancies' + (f'; first: {bad_err[0][3]}' if bad_err else ''), 'cases': cs(bad_err)})
+    stats['evaluations'] = stats.get('evaluations', 0) + len(lines)
+    stats['distinct_nontrivial'] = stats.get('distinct_nontrivial', 0) + 2 * ncase
+    stats['refit_bit_identical'] = n_bit
+
+
 def with_retry(run_pair):
     """a case answered HANG (3 s watchdog of the harness) on a loaded machine is run once more on its own"""
     def rp(lines):
@@ -439,6 +581,7 @@ def run(run_pair, tier, seed):
     quick = tier == 'quick'
     failures, obligations, findings, stats, samples = [], [], [], {}, []
     correspondence(run_pair, rng, 200 if quick else 1500, failures, obligations, findings, stats, samples)
+    refit(run_pair, rng, 4 if quick else 30, failures, obligations, findings, stats, samples)
     interpolation(run_pair, rng, 40 if quick else 200, failures, obligations, findings, stats, samples)
     layout(run_pair, rng, 40 if quick else 150, failures, obligations, findings, stats, samples)
     fixed(run_pair, failures, obligations, findings, stats, samples)
